@@ -124,6 +124,7 @@ type Path struct {
 	nq       int
 	spec     int
 	mapFixed bool
+	noSimplify bool
 	noMerge  bool
 	where    func() string
 }
@@ -451,6 +452,51 @@ func (p *Path) ConcretePanic(msg, where string) {
 		p.violation("no-panic", where, msg, p.model)
 	}
 	panic(pathEnd{"panic", msg})
+}
+
+// ProvenEqual returns the index of a candidate that the solver proves equal to t under the path
+// condition, or -1. Candidates are pre-filtered by evaluation under the current model.
+func (p *Path) ProvenEqual(t *Term, cands []*Term) int {
+	if p.replaying() {
+		d := p.prefix[p.pos]
+		p.pos++
+		if d.kind != 'e' {
+			panic(fmt.Sprintf("replay divergence: expected equality decision, have %c", d.kind))
+		}
+		p.record(d)
+		k := int(d.val) - 1
+		if k >= 0 {
+			p.assertPC(p.ts.Eq(t, cands[k]))
+		}
+		return k
+	}
+	res := -1
+	tv := p.ev.eval(t)
+	for k := len(cands) - 1; k >= 0; k-- {
+		c := cands[k]
+		if c.sort != t.sort || c == t {
+			continue
+		}
+		cv := p.ev.eval(c)
+		if cv.u != tv.u {
+			continue
+		}
+		eq := p.ts.Eq(t, c)
+		if eq.IsConst() {
+			if eq.Bool() {
+				res = k
+				break
+			}
+			continue
+		}
+		if v, _ := p.query(p.ts.Not(eq)); v == Unsat {
+			p.assertPC(eq)
+			res = k
+			break
+		}
+	}
+	p.record(Decision{'e', uint64(res + 1)})
+	return res
 }
 
 // Require: the engine's own side condition (e.g. a narrowing conversion of a mathematical integer
@@ -815,7 +861,7 @@ func (w *World) runPath(h *harnessFn, run *HarnessRun, cfg *Config, proc *Proc, 
 	p := &Path{run: run, cfg: cfg, ts: NewTermStore(), em: NewEmitter(), proc: proc, pcIDs: map[int]bool{}, prefix: it.dec,
 		symCount: map[string]int{}, push: push, unwind: cfg.Unwind, maxSteps: cfg.MaxSteps, maxAlloc: cfg.MaxAlloc}
 	p.setModel(it.model)
-	in := &Interp{w: w, p: p, ts: p.ts, globals: map[*ssa_Global]*Obj{}, fnInstr: map[*ssa_Function]int{}, visits: map[*ssa_Block]int{}}
+	in := &Interp{w: w, p: p, ts: p.ts, globals: map[*ssa_Global]*Obj{}, fnInstr: map[*ssa_Function]int{}, visits: map[*ssa_Block]int{}, encoded: map[string][]*Term{}}
 	proc.send([]string{"(push 1)"})
 	defer func() {
 		proc.send([]string{"(pop 1)"})
